@@ -138,6 +138,7 @@ func gen(g *common.Gen) {
 	kt := knownTypes()
 	var packets [][]byte // valid Interest / Data / LpPacket encodings for the link part
 	var minimalPackets [][]byte
+	var cutPackets [][]byte // consistently truncated minimal packets
 	// ---- part A: every generated decoder; g.N = values per model
 	for _, m := range c13.Models {
 		if !m.Exported {
@@ -175,6 +176,7 @@ func gen(g *common.Gen) {
 		r := g.R.Fork()
 		g.Op("new dec %s", m.Key())
 		g.Stat("dec-history")
+		seenEnc := map[string]bool{}
 		for _, v := range m.MinimalValues(0) {
 			b := safeEncode(m, v)
 			if b == nil {
@@ -184,6 +186,22 @@ func gen(g *common.Gen) {
 			g.Stat("minimal-value")
 			if m.Key() == "spec_2022.Packet" && len(b) > 0 {
 				minimalPackets = append(minimalPackets, b)
+			}
+			if !seenEnc[string(b)] {
+				seenEnc[string(b)] = true
+				// consistent truncation at every element boundary (deterministic, all of them)
+				for _, nb := range consistentTruncations(b) {
+					h := common.Hex(nb)
+					g.Op("p %d %s -", r.Intn(2), h)
+					if r.Chance(1, 2) {
+						g.Op("p %d %s %s", r.Intn(2), h, cutsFor(r, len(nb)))
+					}
+					g.Stat("mut-cut-repair")
+					g.StatN("inputs", 1)
+					if m.Key() == "spec_2022.Packet" && len(nb) > 0 {
+						cutPackets = append(cutPackets, nb)
+					}
+				}
 			}
 			ms := mutations(r, b, kt, thorough)
 			keep := 10
@@ -230,7 +248,20 @@ func gen(g *common.Gen) {
 			g.Stat("rp-" + mu.kind)
 		}
 	}
+	// consistently truncated packets through ReadPacket (both readers)
+	if len(cutPackets) > 0 {
+		r := g.R.Fork()
+		g.Op("new pkt")
+		for _, b := range cutPackets {
+			h := common.Hex(b)
+			g.Op("rp %s -", h)
+			g.Op("rp %s %s", h, cutsFor(r, len(b)))
+			g.Stat("rp-cut-repair")
+			g.StatN("inputs", 2)
+		}
+	}
 	genLink(g, packets)
+	genLinkCut(g, cutPackets)
 }
 
 // ---------------------------------------------------------------- exec
